@@ -54,6 +54,11 @@ theorem inv3a_dSend (s s' : State) (i : Nat) (hI : Inv3a s) (h : step cfg s (.dS
   simp only [step] at h
   (repeat' split at h) <;> close_case3
 
+theorem inv3a_uFail (s s' : State) (i : Nat) (hI : Inv3a s) (h : step cfg s (.uFail i) = some s') : Inv3a s' := by
+  obtain ⟨k1,u2,u3,g5,gp⟩ := hI
+  simp only [step] at h
+  (repeat' split at h) <;> close_case3
+
 set_option maxHeartbeats 1600000 in
 theorem inv3a_cleanup (s s' : State) (i : Nat) (hI : Inv3a s) (h : step cfg s (.cleanup i) = some s') : Inv3a s' := by
   obtain ⟨k1,u2,u3,g5,gp⟩ := hI
@@ -105,6 +110,7 @@ theorem inv3a_step (s s' : State) (e : Ev) (hI : Inv3a s) (h : step cfg s e = so
   | dTimeout i => exact inv3a_dTimeout cfg s s' i hI h
   | dPacket i => exact inv3a_dPacket cfg s s' i hI h
   | dSend i => exact inv3a_dSend cfg s s' i hI h
+  | uFail i => exact inv3a_uFail cfg s s' i hI h
   | cleanup i => exact inv3a_cleanup cfg s s' i hI h
   | uRecv i k => exact inv3a_uRecv cfg s s' i k hI h
   | uStep i => exact inv3a_uStep cfg s s' i hI h
